@@ -26,6 +26,16 @@ type jsCall struct {
 	Want string        `json:"want,omitempty"` // expected JSON of the result, or "ERROR"
 }
 
+// argument values shared by several calls of a history, as the values of one declaration are when the
+// transform's result cache hands them out again; (re)built by c20ResetShared before every history
+var c20SharedArray []interface{}
+var c20SharedObject map[string]interface{}
+
+func c20ResetShared() {
+	c20SharedArray = []interface{}{int64(1), int64(3), int64(2)}
+	c20SharedObject = map[string]interface{}{"k": "v"}
+}
+
 func c20Alphabet() []jsCall {
 	return []jsCall{
 		{Name: "a+1", JS: "a+1", Args: []interface{}{"a", int64(1)}, Want: "2"},
@@ -52,6 +62,11 @@ func c20Alphabet() []jsCall {
 		{Name: "literal-wide", JS: "a + '   |   ' + a", Args: []interface{}{"a", "x"}, Want: `"x   |   x"`},
 		{Name: "comment-then-newline", JS: "a // c\n + 1", Args: []interface{}{"a", int64(1)}, Want: "2"},
 		{Name: "comment-to-end", JS: "a // c + 1", Args: []interface{}{"a", int64(1)}, Want: "1"},
+		// a script that changes its array / object argument in place must not change what a later call is given
+		{Name: "arg-array-sorted-in-place", JS: "p.sort(function(x,y){return y-x})[0]", Args: []interface{}{"p", c20SharedArray}, Want: "3"},
+		{Name: "arg-array-first", JS: "p[0] + '/' + p.length", Args: []interface{}{"p", c20SharedArray}, Want: `"1/3"`},
+		{Name: "arg-object-extended-in-place", JS: "o.added = 1; Object.keys(o).length", Args: []interface{}{"o", c20SharedObject}, Want: "2"},
+		{Name: "arg-object-keys", JS: "Object.keys(o).join(',')", Args: []interface{}{"o", c20SharedObject}, Want: `"k"`},
 		{Name: "newrec", Ctx: "newrec"},
 		{Name: "ctx-rec", JS: "JSON.parse(_node).v", Ctx: "rec"},
 		{Name: "ctx-rec-with-arg", JS: "JSON.parse(_node).v + a", Args: []interface{}{"a", "!"}, Ctx: "rec"},
@@ -125,6 +140,19 @@ func (w *jsWorld) invoke(c jsCall) (res string, applicable bool) {
 func (w *jsWorld) reference(c jsCall) string {
 	old := v21cf.VerifSetDisableCaching(true)
 	defer v21cf.VerifSetDisableCaching(old)
+	// the isolated call gets pristine argument values of its own
+	if len(c.Args) > 0 {
+		args := append([]interface{}{}, c.Args...)
+		for i, a := range args {
+			switch a.(type) {
+			case []interface{}:
+				args[i] = []interface{}{int64(1), int64(3), int64(2)}
+			case map[string]interface{}:
+				args[i] = map[string]interface{}{"k": "v"}
+			}
+		}
+		c.Args = args
+	}
 	r, _ := w.invoke(c)
 	return r
 }
@@ -245,6 +273,7 @@ func c20RunHistory(names []string, x *core.Exec) (sig, detail string, outcomes [
 		return 0
 	}
 	defer func() { vsync.PoolChoice = nil }()
+	c20ResetShared()
 	by := c20ByName()
 	w := &jsWorld{}
 	w.newrec() // the world starts with a root and one record
@@ -343,7 +372,7 @@ func init() {
 	core.Register(&core.Prop{
 		ID:    "C20",
 		Level: "model_checking",
-		Rule:  "E3: a Transform whose schema calls javascript / javascript_with_context anchored on the record, its parent and its grandparent (directly, inside an object moved to the parent, and with arguments read through the ancestor) over every record sequence of length 2..3 (thorough 4) over {A, B, C, failing F}: every result equals the record transformed alone; E0: a value-mapping table of 190 scripts (numbers incl. -0 / 2^53 / MAX_VALUE, every way to produce NaN, +Infinity and -Infinity, null, undefined, thrown values; strings; booleans; nested arrays / objects; typed arguments), each alone and inside 4 call histories on pooled VMs, against the JSON value the property prescribes (or, where it prescribes none, against the isolated call); E1: every history of up to 3 (thorough 4) calls over a 30-symbol alphabet (arguments of every kind, argument named like a built-in, all result kinds, NaN/Infinity/null/undefined/throw/syntax error/odd argument count, IIFE locals, javascript_with_context on the record node, on an ancestor whose children change, and after the record node was released and re-acquired) x every VM-pool answer (reuse/fresh) at every Get; every call's result must equal the same call made in isolation on a fresh VM with all caches disabled, and the expected value of a table (states = distinct (history prefix) outcome vectors, transitions = calls). E2: two threads x two calls from the alphabet under the cooperative scheduler (yield at every VM-pool / cache operation), all schedules with <= 2 preemptions; plus a free-running -race pass",
+		Rule:  "E3: a Transform whose schema calls javascript / javascript_with_context anchored on the record, its parent and its grandparent (directly, inside an object moved to the parent, and with arguments read through the ancestor) over every record sequence of length 2..3 (thorough 4) over {A, B, C, failing F}: every result equals the record transformed alone; E0: a value-mapping table of 190 scripts (numbers incl. -0 / 2^53 / MAX_VALUE, every way to produce NaN, +Infinity and -Infinity, null, undefined, thrown values; strings; booleans; nested arrays / objects; typed arguments), each alone and inside 4 call histories on pooled VMs, against the JSON value the property prescribes (or, where it prescribes none, against the isolated call); E1: every history of up to 3 (thorough 4) calls over a 34-symbol alphabet (arguments of every kind, argument named like a built-in, all result kinds, NaN/Infinity/null/undefined/throw/syntax error/odd argument count, IIFE locals, javascript_with_context on the record node, on an ancestor whose children change, and after the record node was released and re-acquired) x every VM-pool answer (reuse/fresh) at every Get; every call's result must equal the same call made in isolation on a fresh VM with all caches disabled, and the expected value of a table (states = distinct (history prefix) outcome vectors, transitions = calls). E2: two threads x two calls from the alphabet under the cooperative scheduler (yield at every VM-pool / cache operation), all schedules with <= 2 preemptions; plus a free-running -race pass",
 		Assumptions: []string{
 			"scripts that assign globals themselves are excluded by the property; top-level scripts of the alphabet are pure expressions or IIFEs",
 			"the isolated reference call uses the library's own 'caching disabled' path (fresh goja VM, no program / node-JSON cache)",
